@@ -57,6 +57,10 @@ CLAIMS = {
   text="Proof of the member-local part of Destroy and of its non-interference: destroyLocalDMap removes the fragment of the named DMap from every primary partition and, with replicas configured, from every backup partition of this member (loop invariant over the partition ids, partition lookups checked against the table invariant), forgets the DMap, and changes no fragment of any other name in any partition; destroyFragmentOnPartition removes exactly that one name; getDMap is a plain lookup.",
   note="The fragments of a partition (a sync.Map) are modelled as a ghost set of names; loadFragment and wipeOutFragment are trusted for their effect on that set (closing and destroying the engine is not decided); destroyOnCluster (errgroup fan-out to every member) is outside the verifier's reach (goroutines), so 'every member is asked' is not decided; that different DMap names map to different fragment names relies on fmt.Sprintf being injective (assumed); operations other than Destroy are covered for non-interference only in so far as every fragment access goes through dm.fragmentName (by construction of loadFragment/loadOrCreateFragment).",
   ref="DESIGN.md §4 C19, §9"),
+ "C04": dict(
+  text="Proof of the replication hand-over for writes in sync mode: what syncPutOnCluster ships to every backup owner is the encoding of the very entry it stores on the primary (key, expiry, write timestamp, value - entry.encodes), also for Expire (the stored value with the new expiry); after a successful local write the primary holds exactly that entry; a DM.PUTENTRY payload is required to be a well-formed encoded entry at every place one is built; a backup owner (putOnReplicaFragment) stores, under the same hashed key, exactly the key, expiry, timestamp and value that the payload encodes. Together with the machine-checked encode/decode round trip (C17) a backup copy written by an acknowledged Put/Expire equals the primary copy.",
+  note="The network is assumed to deliver the payload unchanged; Delete's fan-out to backups (errgroup goroutines), eviction, locks, GetPut/Incr (they reduce to Put), async mode and ordering between concurrent writers are not decided; storage.Engine.PutRaw is an assumed abstract contract (kvstore.PutRaw is verified at table level); the handler does not validate a payload received from the network (trusted peers).",
+  ref="DESIGN.md §4 C04, §9"),
 }
 
 NA_DEFAULT = "contract-decidable core not yet under contract in this tree (engine and storage layers first); no other technique substituted"
